@@ -238,7 +238,7 @@ import decimal as _decimal
 PURE_STDLIB = {
     'Decimal': lambda it, x: _decimal.Decimal(x), 'decimal.Decimal': lambda it, x: _decimal.Decimal(x),
     'textwrap.dedent': lambda it, s: _textwrap.dedent(s), 'textwrap.indent': lambda it, s, p: _textwrap.indent(s, p),
-    're.sub': _re_sub, 're.match': lambda it, p, s, *a: re.match(p, s, *a), 're.fullmatch': lambda it, p, s, *a: re.fullmatch(p, s, *a),
+    're.sub': _re_sub, 're.match': lambda it, p, s, *a, **k: re.match(p, s, *a, **k), 're.fullmatch': lambda it, p, s, *a, **k: re.fullmatch(p, s, *a, **k),
     're.search': lambda it, p, s, *a: re.search(p, s, *a), 're.split': lambda it, p, s, *a: re.split(p, s, *a), 're.findall': lambda it, p, s, *a: re.findall(p, s, *a),
     're.escape': lambda it, s: re.escape(s), 're.compile': lambda it, p, *a: re.compile(p, *[x for x in a if isinstance(x, int)]),
     'json.dumps': lambda it, v, *a, **k: _json_pure(v, k),
